@@ -422,5 +422,7 @@ m("c03-sweep-failure-swallowed", "C03", "O3.7", (R + "service.py", '            
 m("c03-queue-never-cleared", "C03", "O3.1", (R + "meta_runner.py", "            queue.clear()\n        self._runner_queues.clear()\n", "            pass\n"))
 m("c05-tail-template-not-constructed", "C05", "O5.3", ("src/cobald/daemon/core/config.py", "                        prev_item = prev_item.__construct__()\n", "                        pass\n"))
 m("c13-splitext-index", "C13", "O13.3", ("src/cobald/daemon/core/config.py", '    elif os.path.splitext(config_path)[1] == ".py":', '    elif os.path.splitext(config_path)[2] == ".py":'))
-m("c18-merge-value-fix-reverted", "C18", "O18.7", ("src/cobald/daemon/core/config.py", '    def flatten_mapping(self, node):\n        # PyYAML splices the content of ``<<`` values into ``node`` without ever\n        # looking at their tags: reject here what is rejected at any other position\n        for key_node, value_node in node.value:\n            if key_node.tag == "tag:yaml.org,2002:merge":\n                merged = (\n                    value_node.value\n                    if isinstance(value_node, SequenceNode)\n                    else [value_node]\n                )\n                for merged_node in merged:\n                    if (\n                        isinstance(merged_node, MappingNode)\n                        and merged_node.tag not in self.yaml_constructors\n                    ):\n                        self.construct_undefined(merged_node)\n        super().flatten_mapping(node)\n', ""))
+m("c18-merge-value-fix-reverted", "C18", "O18.7", ("src/cobald/daemon/core/config.py", '    def flatten_mapping(self, node):\n        # PyYAML splices the content of ``<<`` values into ``node`` without ever\n        # looking at their tags: reject here what is rejected at any other position\n        for key_node, value_node in node.value:\n            if key_node.tag == "tag:yaml.org,2002:merge":\n                # the value itself, and each of its elements if it is a list of mappings\n                merged = [value_node]\n                if isinstance(value_node, SequenceNode):\n                    merged = [value_node, *value_node.value]\n                for merged_node in merged:\n                    if merged_node.tag not in self.yaml_constructors:\n                        self.construct_undefined(merged_node)\n        super().flatten_mapping(node)\n', ""))
 m("c18-merge-value-check-inverted", "C18", "O18.7", ("src/cobald/daemon/core/config.py", "                        self.construct_undefined(merged_node)\n", "                        pass\n"))
+m("c18-merge-value-list-node-unchecked", "C18", "O18.7", ("src/cobald/daemon/core/config.py", "                    merged = [value_node, *value_node.value]\n", "                    merged = [*value_node.value]\n"))
+m("c18-merge-value-elements-unchecked", "C18", "O18.7", ("src/cobald/daemon/core/config.py", "                    merged = [value_node, *value_node.value]\n", "                    pass\n"))
